@@ -17,7 +17,7 @@ PROPERTY = "C01"
 LEVEL = "exploration"
 NEED_EXT = True
 REQUIRED = ["get_params", "set_params.key", "set_params.returns_self", "clone", "roundtrip.params",
-            "roundtrip.behaviour", "history.steps", "rebuild.behaviour", "witness", "history.refused_call"]
+            "roundtrip.behaviour", "history.steps", "rebuild.behaviour", "witness", "history.refused_call", "set_params.two_steps"]
 RULE = ("every registered class (32) x its configurations (2-4 each: nested estimators, stacking lists of 1, 2 and 12 "
         "members, string/callable options, SkBase kwargs) x every key advertised by get_params(deep=True) set once "
         "(enumerated) x random histories of 4-12 get/set/clone operations; non-trivial = configuration with nested "
@@ -340,6 +340,13 @@ def run_keys(case, ctx):
             if is_est(val) and after.get(key) is not val:
                 ctx.violation(K + "set_params/object-not-stored/%s" % kk, "the estimator given for %r is not the one "
                               "reported afterwards" % key, cfg=c2)
+            if isinstance(val, list) and val and all(is_est(v) for v in val):
+                got_l = after.get(key)
+                if not isinstance(got_l, (list, tuple)) or len(got_l) != len(val) or not all(
+                        a is b or (hasattr(a, "model") and a.model is b) for a, b in zip(got_l, val)):
+                    ctx.violation(K + "set_params/object-not-stored/list", "the estimators of the list given for %r are "
+                                  "not the ones reported afterwards (a list equal by hyper-parameters was taken for "
+                                  "unchanged?)" % key, cfg=c2)
             if kk != "top":
                 ctx.nontriv(spec.name, vi, key)
             ctx.cls("key=" + kk)
@@ -377,6 +384,68 @@ def run_keys(case, ctx):
                                       "after set_params(%s=...) %s differs from the object rebuilt from the reported "
                                       "parameters" % (key, m), cfg=c2)
                         break
+        # other objects with the SAME hyper-parameters (clones): set_params stores the objects it is given, it does not
+        # decide by == that "nothing changed"
+        from sklearn.base import clone as _clone
+        for key in sorted(p):
+            cur = p[key]
+            try:
+                if is_est(cur) and not isinstance(cur, type):
+                    twin, same = _clone(cur), (lambda got, tw: got is tw)
+                elif isinstance(cur, list) and cur and all(is_est(v) for v in cur):
+                    twin = [_clone(v) for v in cur]
+                    same = (lambda got, tw: isinstance(got, (list, tuple)) and len(got) == len(tw) and all(
+                        a is b or getattr(a, "model", None) is b for a, b in zip(got, tw)))
+                else:
+                    continue
+                e4 = spec.make(vi)
+                e4.set_params(**{key: twin})
+                got4 = e4.get_params(deep=True).get(key)
+            except Exception:
+                ctx.excluded("twin objects: clone / set_params refused")
+                continue
+            ctx.hit("set_params.twin_objects")
+            if not same(got4, twin):
+                ctx.violation(K + "set_params/object-not-stored/equal-hyper-parameters", "set_params(%s=<other objects "
+                              "with the same hyper-parameters>) keeps the previous objects: the key was given and not "
+                              "changed" % key, cfg=dict(cfg, key=key))
+        # two calls in a row on one instance: a first key, then a second one - each changes exactly its key
+        tops = [k for k in sorted(p) if "__" not in k]
+        pairs = [(a, b) for a in tops for b in tops if a != b]
+        if len(pairs) > 40:
+            pairs = [pairs[i] for i in sorted(rng.choice(len(pairs), 40, replace=False))]
+        for k1, k2 in pairs:
+            e3 = spec.make(vi)
+            b0 = safe_get(e3, ctx, K, cfg)
+            if b0 is None or k1 not in b0 or k2 not in b0:
+                continue
+            v1, ok1 = alt_value(spec, k1, b0[k1], rng, e3)
+            if not ok1:
+                continue
+            c3 = dict(cfg, first=k1, second=k2)
+            try:
+                e3.set_params(**{k1: v1})
+                b1 = safe_get(e3, ctx, K, c3)
+                if b1 is None or k2 not in b1:
+                    continue
+                v2, ok2 = alt_value(spec, k2, b1[k2], rng, e3)
+                if not ok2:
+                    continue
+                e3.set_params(**{k2: v2})
+            except Exception:
+                ctx.excluded("two-step: a combination of two alternative values is refused")
+                continue
+            a2 = safe_get(e3, ctx, K, c3)
+            if a2 is None:
+                continue
+            ctx.hit("set_params.two_steps")
+            d2 = diff_params(a2, expected_after(b1, {k2: v2}, spec.name))
+            if d2:
+                ctx.violation(K + "set_params/second-call-differs/%s" % key_kind(k2), "after set_params(%s=...) then "
+                              "set_params(%s=%s): %s" % (k1, k2, _short(v2), "; ".join(d2[:3])), cfg=c3)
+            elif is_est(v2) and a2.get(k2) is not v2:
+                ctx.violation(K + "set_params/object-not-stored/second-call", "after set_params(%s=...), the estimator "
+                              "given for %r is not the one reported" % (k1, k2), cfg=c3)
         # round trip between two differently configured instances
         for vj in range(len(spec.variants)):
             if vj == vi:
